@@ -171,4 +171,24 @@ example : ((run St.init (keepAlive.dropLast)).map (fun s => (s.held 1, (step s (
 example : dispatch ".yml" = .yaml ∧ dispatch ".py" = .python ∧ dispatch ".json" = .unknown ∧ dispatch "" = .unknown := by
   decide
 
+/-! ### the runtime glue as written in the source
+
+The model of this property was transcribed from these functions (what the daemon rests on: the runtime's `accept` / `adopt` and the polling of service units, `MetaRunner.run` (whose result is the exit status), and the two configuration loaders).
+`Gen.runtimePins` is recomputed on every run: the normalised text of every function of the runner
+modules (docstrings, annotations and logging statements dropped) is compared with the text the
+model was last transcribed from (`harness/vh/pins.json`). A changed function breaks this theorem;
+the scenario families are then the search for a failing history. -/
+
+theorem gen_runtime_text :
+    ∀ n ∈ ["service:ServiceRunner.accept",
+     "service:ServiceRunner.adopt",
+     "service:ServiceRunner._accept_services",
+     "service:ServiceRunner._adopt_services",
+     "service:service",
+     "meta_runner:MetaRunner.run",
+     "meta_runner:MetaRunner._manage_runners",
+     "python:load_configuration",
+     "yaml:load_configuration"],
+      Gen.pinned n = true := by decide
+
 end Cobald.Props.C13
